@@ -47,6 +47,7 @@ def gen_ops(tier, rng):
     ops = ['compact ' + ' '.join(map(str, l)) for l in antichain_lists(tier, rng)]
     return ops + gens.compact_ops(tier, rng)[:200]
 
+@common.guarded(lambda **a: f"minimality check of compact({a['X'][:6]}{'...' if len(a['X']) > 6 else ''})", lambda **a: {'cells': a['X']})
 def check_list(drv, X, rng, fails):
     cp = drv.cp
     try:
